@@ -4,10 +4,10 @@
 # then runs the named checks against the changed tree. Nothing touches /repo.
 set -u
 M=$1; shift
-VM=/tmp/vm; T=/tmp/vm-target
+VM=${TRY_VM:-/tmp/vm}; T=${TRY_TARGET:-/tmp/vm-target}
 SRC="$(cd "$(dirname "$0")/.." && pwd)"
 # isolated copy of the framework, so that concurrent work in /verif (and /verif/.repo) is not disturbed
-W=/tmp/verif-mut
+W=${TRY_W:-/tmp/verif-mut}
 mkdir -p $W
 rsync -a --delete --exclude target --exclude target-shuttle --exclude .git --exclude replays --exclude evidence --exclude .repo "$SRC/" $W/
 cd $W
@@ -24,9 +24,9 @@ suite=$(cd $VM && cargo test --workspace --no-fail-fast --offline 2>&1 | grep -E
 echo "suite with change: $suite"
 demos=$(ls "$M"/*.rs 2>/dev/null)
 for d in $demos; do cp "$d" $VM/bigtools/tests/; done
-for d in $demos; do n=$(basename $d .rs); (cd $VM && timeout 900 cargo test --offline -p bigtools --test $n >/tmp/vm-demo.log 2>&1); echo "demo $n with change: exit=$?"; done
+for d in $demos; do n=$(basename $d .rs); (cd $VM && timeout 900 cargo test --offline -p bigtools --test $n >$T-demo.log 2>&1); echo "demo $n with change: exit=$?"; done
 git -C $VM apply -R "$M/patch.diff" 2>/dev/null || git -C $VM checkout -q -- bigtools/src
-for d in $demos; do n=$(basename $d .rs); (cd $VM && timeout 900 cargo test --offline -p bigtools --test $n >/tmp/vm-demo2.log 2>&1); echo "demo $n without change: exit=$?"; done
+for d in $demos; do n=$(basename $d .rs); (cd $VM && timeout 900 cargo test --offline -p bigtools --test $n >$T-demo2.log 2>&1); echo "demo $n without change: exit=$?"; done
 git -C $VM checkout -q -- . ; git -C $VM clean -fdq
 git -C $VM apply "$M/patch.diff" 2>/dev/null || git -C $VM apply --3way "$M/patch.diff"
 unset CARGO_TARGET_DIR
